@@ -19,13 +19,13 @@ const workers = 8
 
 // In is the replayable input of one case.
 type In struct {
-	Kind   string `json:"kind"`             // valid | bytes | adv
-	Prog   *Prog  `json:"prog,omitempty"`   // valid: lexemes and separators
+	Kind   string `json:"kind"`              // valid | bytes | adv | file
+	Prog   *Prog  `json:"prog,omitempty"`    // valid: lexemes and separators
 	RefSrc HB     `json:"ref_src,omitempty"` // valid: the first layout of the same program (bytecode reference)
-	Src    HB     `json:"src,omitempty"`    // bytes
-	Origin string `json:"origin,omitempty"` // bytes: which generator
-	Shape  string `json:"shape,omitempty"`  // adv
-	N      int    `json:"n,omitempty"`      // adv
+	Src    HB     `json:"src,omitempty"`     // bytes
+	Origin string `json:"origin,omitempty"`  // bytes: which generator
+	Shape  string `json:"shape,omitempty"`   // adv
+	N      int    `json:"n,omitempty"`       // adv
 }
 
 func coqOToks(ts []OTok) string {
@@ -150,7 +150,7 @@ func main() {
 	w.Meta.Rule = "valid stream: random Lua 5.1(+goto) programs as lexeme lists, each printed under 3 layouts (compact / plain / wild: blanks \\t\\v\\f, LF CR CRLF LFCR, -- and --[=*[ comments) plus a variant with optional ';' and redundant parentheses; " +
 		"parse.Scanner driven to EOF must equal the Coq lexer and the lexemes (Render.expected_tokens), LoadString must give a function and the same bytecode (FunctionProto dump without line info) for every layout; " +
 		"malformed stream: random bytes, Lua-alphabet soup, token soup, byte/chunk mutations and every truncation of sample programs through LoadString in child processes (2 s limit, recover), a PRNG-chosen part also through the Coq lexer; " +
-		"adversarial sizes Go-side only. non-trivial = valid program with >= 8 lexemes, byte string with >= 4 bytes; distinct by Gallina term"
+		"LoadFile on texts with a first '#' line against LoadString of the text without it, and adversarial sizes: Go-side only. non-trivial = valid program with >= 8 lexemes, byte string with >= 4 bytes; distinct by Gallina term"
 	w.Meta.Extra = map[string]any{}
 	r := lib.NewRand(a.Seed)
 	if a.Replay != "" {
@@ -159,6 +159,7 @@ func main() {
 		corpus(w)
 		runValid(w, r.Fork(), a.Tier)
 		runMalformed(w, r.Fork(), a.Tier)
+		runLoadFile(w, r.Fork(), a.Tier)
 		runAdversarial(w, a.Tier)
 	}
 	if err := w.Close(); err != nil {
@@ -186,6 +187,13 @@ func replay(w *lib.Writer, path string) {
 	case "bytes":
 		rs := runAll([]Request{{ID: 0, Src: in.Src, WantToks: true, LimitMs: 2000}}, 1)
 		addBytes(w, in, rs[0], "replay", kfBytes(in.Src, rs[0]))
+	case "file":
+		rs := runAll([]Request{{ID: 0, Src: in.Src, File: true, LimitMs: 3000}, {ID: 1, Src: HB(stripFirstLine(in.Src)), LimitMs: 3000}}, 1)
+		bad := goFailOf(rs[0])
+		if bad == "" && goFailOf(rs[1]) == "" && rs[0].Load != rs[1].Load {
+			bad = "LoadFile ends in " + loadNames[rs[0].Load] + " but LoadString of the text without its '#' line ends in " + loadNames[rs[1].Load]
+		}
+		addFileCase(w, in, rs[0], bad)
 	case "adv":
 		src := advSource(in.Shape, in.N)
 		rs := runAll([]Request{{ID: 0, Src: src, LimitMs: advLimitMs}}, 1)
